@@ -25,5 +25,10 @@ pub uninterp spec fn as_ref_view<S: core::marker::PointeeSized, T: core::marker:
     u.fn(c, c.find("utf8", "fn"), "cln_plugin::codec::utf8", stub=True)
     u.impl(c, "MultiLineCodec", ["decode"], "cln_plugin::codec", trait="Decoder")
     u.impl(c, "MultiLineCodec", ["encode"], "cln_plugin::codec", trait="Encoder")
+    u.item(c, "JsonCodec", "struct")
+    u.impl(c, "JsonCodec", ["encode"], "cln_plugin::codec", trait="Encoder")
+    u.impl(c, "JsonCodec", ["decode"], "cln_plugin::codec", trait="Decoder")
+    u.item(c, "JsonRpcCodec", "struct")
+    u.impl(c, "JsonRpcCodec", ["decode"], "cln_plugin::codec", trait="Decoder")
     u.auto_here(c, "cln_plugin::codec")
     u.raw("} }\n} // verus!\nfn main() {}\n")
